@@ -99,6 +99,10 @@ VERSION_FILES = {
     "file:sequence-number-only": ("APP_ROOT_SEQ_NUM = 7\n", 7, None),
     "file:empty": ("", 1, None),
     "file:zephyr-style": ("VERSION_MAJOR = 1\nVERSION_MINOR = 2\nPATCHLEVEL = 3\nVERSION_TWEAK = 4\nEXTRAVERSION = rc1\n", 0x01020304, "1.2.3-rc.1"),
+    "file:bare-rc": ("VERSION_MAJOR = 1\nVERSION_MINOR = 2\nPATCHLEVEL = 3\nVERSION_TWEAK = 0\nEXTRAVERSION = rc\n", 0x01020300, "1.2.3-rc"),
+    "file:bare-alpha-unordered": ("EXTRAVERSION = alpha\nPATCHLEVEL = 7\nVERSION_MINOR = 0\nVERSION_MAJOR = 4\n", 0x04000700, "4.0.7-alpha"),
+    "file:dotted-beta-empty-tweak-first": ("EXTRAVERSION = beta.12\nVERSION_MAJOR = 0\nVERSION_MINOR = 9\nPATCHLEVEL = 1\nVERSION_TWEAK = 5\n", 0x00090105, "0.9.1-beta.12"),
+    "file:unsupported-extra": ("VERSION_MAJOR = 2\nVERSION_MINOR = 1\nPATCHLEVEL = 0\nEXTRAVERSION = dev\n", 0x02010000, "2.1.0-alpha"),
     "file:no-tweak-no-extra": ("VERSION_MAJOR = 2\nVERSION_MINOR = 0\nPATCHLEVEL = 9\n", 0x02000900, "2.0.9"),
     "file:explicit": ("APP_ROOT_SEQ_NUM = 300\nAPP_ROOT_VERSION = 3.1.4-beta\nVERSION_MAJOR = 9\nVERSION_MINOR = 9\nPATCHLEVEL = 9\n", 300, "3.1.4-beta"),
 }
@@ -319,7 +323,7 @@ def run(tier: str, seed: int) -> int:
     index = 0
     for rep in range(reps):
         for subset in subsets:
-            for varmode in ("none", "default", "app") + ((tuple(VERSION_FILES)[(len(subset) + rep) % len(VERSION_FILES)],) if tier == "quick" else tuple(VERSION_FILES)):
+            for varmode in ("none", "default", "app") + (tuple(tuple(VERSION_FILES)[(subsets.index(subset) + rep + off) % len(VERSION_FILES)] for off in (0, 7)) if tier == "quick" else tuple(VERSION_FILES)):
                 name_sets = [(None, "plain"), ((PLAIN_NAMES[1], PLAIN_NAMES[2], PLAIN_NAMES[1]), "plain")]
                 yn = rng.sample(YAML_NAMES, 3)
                 name_sets.append(((yn[0], yn[1], yn[2]), "yaml-significant"))
